@@ -170,6 +170,13 @@ func NewTableParser(resolver *StyleResolver) *TableParser {
 	}
 }
 
+// maxTableColumns bounds the width of a table grid: repeat and span counts are
+// taken from the file and must not size an allocation by themselves.
+const maxTableColumns = 16384
+
+// maxTableRows bounds a row span in the same way.
+const maxTableRows = 1 << 20
+
 // ParseTable parses a table XML element into a ParsedTable.
 func (tp *TableParser) ParseTable(tbl tableXML) ParsedTable {
 	parsed := ParsedTable{
@@ -215,7 +222,8 @@ func (tp *TableParser) parseTableColumns(cols []tableColXML) []float64 {
 			}
 		}
 
-		for i := 0; i < repeat; i++ {
+		// The count comes from the file: no table has more than maxTableColumns
+		for i := 0; i < repeat && len(widths) < maxTableColumns; i++ {
 			widths = append(widths, width)
 		}
 	}
@@ -262,6 +270,9 @@ func (tp *TableParser) parseCell(cell tableCellXML) ParsedTableCell {
 	// Parse column span
 	if cell.NumberColumnsSpanned != "" {
 		if span, err := strconv.Atoi(cell.NumberColumnsSpanned); err == nil && span > 0 {
+			if span > maxTableColumns {
+				span = maxTableColumns
+			}
 			parsed.ColSpan = span
 		}
 	}
@@ -269,6 +280,9 @@ func (tp *TableParser) parseCell(cell tableCellXML) ParsedTableCell {
 	// Parse row span
 	if cell.NumberRowsSpanned != "" {
 		if span, err := strconv.Atoi(cell.NumberRowsSpanned); err == nil && span > 0 {
+			if span > maxTableRows {
+				span = maxTableRows
+			}
 			parsed.RowSpan = span
 		}
 	}
@@ -362,6 +376,11 @@ func (tp *TableParser) processRowSpans(table *ParsedTable) {
 		}
 	}
 
+	// Spans come from the file: the grid is never wider than maxTableColumns
+	if colCount > maxTableColumns {
+		colCount = maxTableColumns
+	}
+
 	rowSpansRemaining := make([]int, colCount)
 
 	for rowIdx := range table.Rows {
@@ -436,6 +455,10 @@ func (pt *ParsedTable) ToModelTable() *model.Table {
 				colCount = count
 			}
 		}
+	}
+
+	if colCount > maxTableColumns {
+		colCount = maxTableColumns
 	}
 
 	rowCount := len(pt.Rows)
